@@ -227,6 +227,53 @@ def run(tier, seed):
             do_spend(cs5, b5x.utxo, 'spend3:head=b5x(fork switch, spend1 unconfirmed again)', 3)
             do_spend(cs5, b5x.utxo, 'spend4:head=b5x', 4)
             do_spend(cs3, b3.utxo, 'spend5:back at head=b3', 2)
+    # ---- wallets in unusual but legitimate shapes: (a) a funded key sits in the UNUSED pool again (handed out, paid to,
+    #      then restored -- as the miner does when it stops); (b) one key's private part is unusable (watch-only / corrupt):
+    #      a spend that needs it fails in signing and leaves no trace, a spend that does not need it succeeds
+    for trial in range(4 if tier == 'quick' else 16):
+        with chaingen.Env(period=50) as env:
+            shape = [(0, 10), (1, 100), (0, 7), (1, 50)]
+            nodes, cs = build_ledger(env, keys, rng, shape)
+            head = nodes[-1]
+            k0, k1 = keys.pks[0], keys.pks[1]
+            if trial % 2 == 0:
+                wallet = Wallet({k0: keys.by_pk[k0].to_string(), k1: keys.by_pk[k1].to_string()}, [k1], {k0: 'a'})
+                need = sum(v for (v, pk) in head.utxo.values() if pk in (k0, k1)) - 3
+                rp = {'wallet_shape': 'funded key in the unused pool', 'amount': need}
+                try:
+                    tx = create_spend_transaction(wallet, cs, need, 0, SECP256k1PublicKey(keys.pks[5]), SECP256k1PublicKey(k0))
+                    ok_ = True
+                except Exception as e:
+                    ok_, err_ = False, e
+                ck.case(('shape', trial), kind='funded-key-in-unused-pool/%s' % ('spend' if ok_ else 'refused'))
+                if not ok_:
+                    ck.violation('affordable-spend-refused', 'a spend that needs the outputs of a funded key which is back in the '
+                                 'unused pool is refused (%s) although the wallet holds enough' % err_, rp)
+            else:
+                wallet = Wallet({k0: keys.by_pk[k0].to_string(), k1: b'\x00' * 5}, [], {k0: 'a', k1: 'watch-only'})
+                order_first = list(wallet.keypairs.keys())[0]
+                total0 = sum(v for (v, pk) in head.utxo.values() if pk == k0)
+                used_before = set(wallet.spent_transaction_outputs)
+                rp = {'wallet_shape': 'one unusable private key', 'first_key_usable': order_first == k0}
+                try:
+                    create_spend_transaction(wallet, cs, total0 + 20, 0, SECP256k1PublicKey(keys.pks[5]), SECP256k1PublicKey(k0))
+                    failed = False
+                except Exception:
+                    failed = True
+                ck.case(('shape', trial), kind='unusable-key/%s' % ('failed-in-signing' if failed else 'built'))
+                if failed and set(wallet.spent_transaction_outputs) != used_before:
+                    ck.violation('failed-spend-changes-used-record', 'a spend that failed while signing (one of the needed keys has no '
+                                 'usable private part) changed the wallet\'s record of used outputs (%d -> %d entries)'
+                                 % (len(used_before), len(wallet.spent_transaction_outputs)), rp)
+                try:
+                    tx2 = create_spend_transaction(wallet, cs, total0 - 1, 0, SECP256k1PublicKey(keys.pks[5]), SECP256k1PublicKey(k0))
+                    refs2 = [(h, i) for h, i, _ in spec.TxView(tx2).inputs]
+                    if any(head.utxo[x][1] != k0 for x in refs2 if x in head.utxo):
+                        pass
+                except Exception as e:
+                    if 'Insufficient' in str(e):
+                        ck.violation('affordable-spend-refused-after-failed-attempt', 'after a spend failed while signing, a spend '
+                                     'that the usable key alone can pay is refused with insufficient funds', rp)
     # ---- the known finding: more inputs than fit in one transaction
     with chaingen.Env(period=50) as env:
         tg = chaingen.TreeGen(env, keys, rng)
